@@ -177,6 +177,25 @@ fn cells() -> Vec<Cell> {
             v.push(Cell { name: format!("recv/{}<-LookalikeFrame#{}({:02X}:{})", rname, i, ty, crate::util::hex(&data)), m1: req.clone(), reply: RefMsg::Unknown { addr: 3, ty, data: data.clone() }, send_paced: false, recv_paced: false });
         }
     }
+    // ... and the byte pair 04 13 / 04 11 (message type, state code) in every OTHER pair of neighbouring fields of a reply
+    // — address high and low byte, address low byte and type, two data bytes, the last two data bytes, length and address —
+    // is not an in-progress report either
+    for code in [0x13u8, 0x11] {
+        let c = u16::from(code);
+        let lookalikes: Vec<(u16, u8, Vec<u8>)> = vec![
+            (0x0400 | c, 0x42, vec![]),
+            (0x0400 | c, 0x42, vec![1]),
+            (0x0004, code, vec![]),
+            (0x0104, code, vec![]),
+            (0xFF04, code, vec![0x00]),
+            (3, 0x42, vec![4, code]),
+            (3, 0x42, vec![0, 4, code]),
+            (c << 8 | 3, 0x42, vec![0; 4]),
+        ];
+        for (i, (addr, ty, data)) in lookalikes.into_iter().enumerate() {
+            v.push(Cell { name: format!("recv/Query<-FieldPairLookalike#{}({:04X}:{:02X}:{})", i, addr, ty, crate::util::hex(&data)), m1: RefMsg::Query(3), reply: RefMsg::Unknown { addr, ty, data }, send_paced: false, recv_paced: false });
+        }
+    }
     v
 }
 
